@@ -513,7 +513,7 @@ MUTANTS = [
     _m("scalar-default-all-faces", "        self.is_neu[self.bf] = True\n", "        self.is_neu[:] = True\n", "R1"),
     _m("scalar-boundary-without-fractures", "        self.bf: np.ndarray = sd.get_all_boundary_faces()\n", "        self.bf: np.ndarray = sd.get_boundary_faces()\n", "R1"),
     _m("vectorial-default-after-set-bc", "        self.is_neu[:, self.bf] = True\n        self.set_bc(faces, cond)\n",
-       "        self.set_bc(faces, cond)\n        self.is_neu[:, self.bf] = True\n", "R1", control=True),
+       "        self.set_bc(faces, cond)\n        self.is_neu[:, self.bf] = True\n", "R1"),
     _m("vectorial-rob-starts-true", "        self.is_rob = np.zeros((sd.dim, self.num_faces), dtype=bool)\n", "        self.is_rob = np.ones((sd.dim, self.num_faces), dtype=bool)\n", "R1"),
     _m("vectorial-init-drops-cond", "        self.set_bc(faces, cond)\n", "        self.set_bc(faces, \"neu\")\n", "R1"),
     _m("scalar-unknown-keyword-warns", "                    raise ValueError(\"Boundary should be Dirichlet, Neumann or Robin\")\n",
